@@ -161,7 +161,7 @@ theorem at_date_hour (c : Cfg Rat) (lang : String) (now : Now) (vs : Vars Rat) (
 
 macro "match_unix" : tactic => `(tactic|
   (refine ⟨_, rfl, ?_, ?_⟩ <;>
-   simp [findMatch, findMatch.go, ti, tiText, numI, infoEq, tokEq, tokFieldCompare, fieldNameOf,
+   simp [findMatch, findMatch.go, sameTok, ti, tiText, numI, infoEq, tokEq, tokFieldCompare, fieldNameOf,
      Field.name, Fields.insert, Fields.get?, assoc?, Tok.typeName, Item.typeName, lowerEq]))
 
 /-- `N to date` -/
